@@ -382,6 +382,10 @@ func (x *Exec) doBinOp(st *State, b *ssa.BinOp) Value {
 			// 1 << k
 			p := x.uf("pow2", sInt, c)
 			st.assume(mkCmp(">=", p, tOne))
+			// monotone bounds for the exponents that occur as limits in the code
+			for _, k := range []int64{8, 12, 16, 20, 24, 28, 32, 48, 62} {
+				st.assume(mkImplies(mkAnd(mkCmp("<=", tZero, c), mkCmp("<=", c, mkInt(k))), mkCmp("<=", p, mkBig(pow2(k)))))
+			}
 			return scalar(t, x.wrapArith(t, p, true))
 		}
 		x.note("non-constant shift treated as uninterpreted: " + x.funcName())
